@@ -3055,7 +3055,12 @@ where
         // We cannot use result of `peek()` directly because of borrow checker
         let _ = self.peek()?;
         match self.last_peeked() {
-            DeEvent::Text(t) if t.is_empty() => visitor.visit_none(),
+            DeEvent::Text(t) if t.is_empty() => {
+                // Consume the empty text, otherwise a sequence of `Option`s
+                // will see it again and again
+                self.next()?;
+                visitor.visit_none()
+            }
             DeEvent::Eof => visitor.visit_none(),
             // if the `xsi:nil` attribute is set to true we got a none value
             DeEvent::Start(start) if self.reader.reader.has_nil_attr(&start) => {
